@@ -14,7 +14,7 @@ import numpy as np
 
 from ..index import AnchorMissing, Unrecognised
 from ..absval import Evaluator
-from ..astutil import u, body_walk, local_env, func_calls, walk_local, single_return_expr, straightline_return, inline_locals
+from ..astutil import linear_body, u, body_walk, local_env, func_calls, walk_local, single_return_expr, straightline_return, inline_locals
 from .. import sym
 
 EXPLANATION = ("Static analysis of the text<->number conversion source: the integer-width computation is checked to be an exact integer table lookup (the power "
@@ -107,17 +107,17 @@ def r2_parsing(ctx):
     txt = u(f.node)
     ok = "is_negative = number_text[:, 0] == '-'" in txt and "is_positive = number_text[:, 0] == '+'" in txt
     ctx.ob(f.where, "signs are recognised in column 0 only", ok, "", key="C18-R2|sign-detection")
-    rets = [n for n in f.node.body if isinstance(n, ast.Return)]
+    rets = [n for n in linear_body(f.node) if isinstance(n, ast.Return)]
     ok = bool(rets) and sym.same(rets[-1].value, "(number_digits * powers).sum(axis=-1) * signs")
     ctx.ob(f.where, "value = (sum of digit * 10**power) * sign (sign applied after the digit sum)", ok, u(rets[-1].value) if rets else "", key="C18-R2|value")
     env = {}
-    for x in f.node.body:
+    for x in linear_body(f.node):
         if isinstance(x, ast.Assign) and isinstance(x.targets[0], ast.Name):
             env[x.targets[0].id] = x.value
     ok = sym.same(env.get("signs"), "np.where(is_negative, -1, +1)") and sym.same(env.get("powers"), "10 ** _build_power_array(number_text._shape)") and \
         sym.same(env.get("number_digits"), "RaggedArray(number_text.ravel().data, number_text._shape)")
     ctx.ob(f.where, "sign = -1 exactly for rows with '-'; powers follow the text's own ragged shape; digits are the text's own rows", ok, "", key="C18-R2|parts")
-    first = f.node.body[1] if isinstance(f.node.body[0], ast.Expr) else f.node.body[0]
+    first = linear_body(f.node)[1] if isinstance(linear_body(f.node)[0], ast.Expr) else linear_body(f.node)[0]
     ok = isinstance(first, ast.Assign) and u(first.targets[0]) == p and sym.canon(first.value) == f"as_encoded_array({p}).copy()"
     ctx.ob(f.where, "the text is copied before any character is overwritten", ok, u(first), key="C18-R2|copy-first")
     # float dispatch: complementary masks, aligned store
@@ -136,7 +136,7 @@ def r2_parsing(ctx):
     ok = sorted(masks) == sorted([("scientific", "_scientific_str_to_float"), ("~(scientific)", "_decimal_str_to_float")])
     ctx.ob(g.where, "scientific rows go to the scientific parser, all other rows to the decimal parser (complementary masks)", ok, str(masks), key="C18-R2|dispatch")
     env = {}
-    for x in g.node.body:
+    for x in linear_body(g.node):
         if isinstance(x, ast.Assign) and isinstance(x.targets[0], ast.Name):
             env[x.targets[0].id] = x.value
     ok = sym.same(env.get("scientific"), f"np.any({q} == 'e', axis=-1)") and sym.same(env.get("numbers"), f"np.empty(len({q}))")
@@ -155,11 +155,11 @@ def r2_parsing(ctx):
     ok = e is not None and sym.canon(e) == sym.canon(sym.parse_expr(want))
     ctx.ob(h.where, "scientific value = mantissa (text before 'e') * 10 ** exponent (text after 'e')", ok, u(e)[:200] if e is not None else "", key="C18-R2|scientific")
     d = ix.func(S, "_decimal_str_to_float")
-    rets = [x for x in d.node.body if isinstance(x, ast.Return)]
+    rets = [x for x in linear_body(d.node) if isinstance(x, ast.Return)]
     ok = bool(rets) and sym.same(rets[0].value, "signs * base_numbers / powers")
     ctx.ob(d.where, "decimal value = sign * integer-of-digits / 10 ** (number of decimals)", ok, u(rets[0].value) if rets else "", key="C18-R2|decimal")
     env = {}
-    for x in d.node.body:
+    for x in linear_body(d.node):
         if isinstance(x, ast.Assign) and isinstance(x.targets[0], ast.Name):
             env.setdefault(x.targets[0].id, []).append(x.value)
     ok = sym.same(env.get("signs", [None])[-1], "np.where(is_negative, -1, +1)") and sym.same(env.get("base_numbers", [None])[-1], "(number_digits * powers).sum(axis=-1)") and \
@@ -240,12 +240,12 @@ def r3_digit_matrix(ctx):
 def r4_float_and_list_formatting(ctx):
     ix = ctx.index
     f = ix.func(S, "float_to_strings")
-    rets = [x for x in f.node.body if isinstance(x, ast.Return)]
+    rets = [x for x in linear_body(f.node) if isinstance(x, ast.Return)]
     ok = bool(rets) and sym.canon(rets[0].value) == sym.canon(sym.parse_expr(f"as_encoded_array([str(f) for f in {f.params[0]}])"))
     ctx.ob(f.where, "floats are printed with Python's str(float) (shortest repr that parses back to the same double)", ok, u(rets[0].value) if rets else "", key="C18-R4|float-repr")
     g = ix.func(S, "int_lists_to_strings")
     env = {}
-    for x in g.node.body:
+    for x in linear_body(g.node):
         if isinstance(x, ast.Assign) and isinstance(x.targets[0], ast.Name):
             env.setdefault(x.targets[0].id, []).append(x.value)
     il = g.params[0]
